@@ -56,7 +56,7 @@ pub fn sweeps(ctx: &Ctx) -> Vec<Sweep> {
         let st = crate::c01::stores();
         let few: Vec<Vec<u8>> = [0usize, 5, 40, 100].iter().map(|i| st[*i].clone()).collect();
         crate::c01::run_headers("types-sig", true, 2, &[1000, 1001], &[0, -1], &[0, 1, 2], &few, &[b"pay"])
-    }, crate::c01::run_empty_and_truncated(), crate::c01::run_lead(), crate::c01::run_section_edges(), crate::c01::run_entry_geometry()]
+    }, crate::c01::run_empty_and_truncated(), crate::c01::run_lead(), crate::c01::run_section_edges(), crate::c01::run_entry_geometry(), crate::c01::run_entry_counts()]
 }
 
 pub fn run(ctx: &Ctx) -> i32 {
@@ -70,6 +70,7 @@ pub fn run(ctx: &Ctx) -> i32 {
     let (s_ld, _ev) = run_sweep(ctx, &sw[6]);
     let (s_se, _ev) = run_sweep(ctx, &sw[7]);
     let (s_eg, _ev) = run_sweep(ctx, &sw[8]);
+    let (s_ec, _ev) = run_sweep(ctx, &sw[9]);
     // the public header API: Header::clear() / Header::new_empty() on the signature header
     let mut h = Acc::new();
     {
@@ -85,7 +86,8 @@ pub fn run(ctx: &Ctx) -> i32 {
             }
         }
         for (k, (name, p)) in pkgs.iter().enumerate() {
-            for op in ["signature.clear()", "signature = Header::new_empty()", "clear_signatures()", "signature.clear() then clear_signatures()"] {
+            let next = &pkgs[(k + 1) % pkgs.len()].1;
+            for op in ["signature.clear()", "signature = Header::new_empty()", "clear_signatures()", "signature.clear() then clear_signatures()", "signature.clone_from(the next package's)", "header.clone_from(the next package's)", "metadata.clone_from(the next package's)", "signature = the next package's, cloned"] {
                 h.evals += 1;
                 let mut q = p.clone();
                 match op {
@@ -94,6 +96,10 @@ pub fn run(ctx: &Ctx) -> i32 {
                     "clear_signatures()" => {
                         let _ = q.clear_signatures();
                     }
+                    "signature.clone_from(the next package's)" => q.metadata.signature.clone_from(&next.metadata.signature),
+                    "header.clone_from(the next package's)" => q.metadata.header.clone_from(&next.metadata.header),
+                    "metadata.clone_from(the next package's)" => q.metadata.clone_from(&next.metadata),
+                    "signature = the next package's, cloned" => q.metadata.signature = next.metadata.signature.clone(),
                     _ => {
                         q.metadata.signature.clear();
                         let _ = q.clear_signatures();
@@ -108,7 +114,7 @@ pub fn run(ctx: &Ctx) -> i32 {
             }
         }
     }
-    let s_api = SubReport::new("header-api", "A", "assets and built packages (unsigned / Ed25519 / RSA-2048) after Header::clear() on the signature header, Header::new_empty(), clear_signatures() and their combination: offsets vs the written bytes", h);
+    let s_api = SubReport::new("header-api", "A", "assets and built packages (unsigned / Ed25519 / RSA-2048) after Header::clear() on the signature header, Header::new_empty(), clear_signatures(), their combination, and after the signature header / main header / metadata was overwritten in place with another package's (clone_from, assignment of a clone): offsets vs the written bytes", h);
     // packages as the builder hands them over (never re-parsed): the reachable residues mod 8 of the main header's data section,
     // in the ordinary and in the large-file layout, unsigned and signed
     let mut bd = Acc::new();
@@ -154,7 +160,7 @@ pub fn run(ctx: &Ctx) -> i32 {
     }
     ctx.finish(
         "exploration",
-        vec![s1, s_dr, s_ut, s_th, s_ts, s_et, s_ld, s_se, s_eg, s_api, s_bd, s2, s3],
+        vec![s1, s_dr, s_ut, s_th, s_ts, s_et, s_ld, s_se, s_eg, s_ec, s_api, s_bd, s2, s3],
         &["offset arithmetic is exercised for every signature-store residue mod 8; header sizes beyond the enumerated ones are covered by the assets and the corpus only"],
         vec![],
     )
